@@ -12,7 +12,12 @@
     generated factories (counting, resolving their edges through the provider they
     are given, failing as told): result of every call, origin tag of every instance,
     singleton identity, factory invocation counters; Gets alternate between Get,
-    InjectTo with a required field and InjectTo with an optional field.
+    InjectTo with a required field and InjectTo with an optional field.  Struct
+    injection (InjectBegin / one Get per field / abort on a required failure / extra
+    injectors last) is explored for <=2 definitions and replayed with structs built by
+    reflection, once with and once without the extra map injector's key: which fields
+    are set, with which instance, the result, and that nothing after an aborting
+    field is touched.
     Thorough/quick: simulated deep behaviours over 3 names (cycles of length 3,
     6 definitions, 6 Gets)."""
 import json
@@ -23,7 +28,7 @@ NPROC = 14
 MANIFEST = dict(
     technique='TLA+ stack-machine model of the provider checked by TLC (with the pre-fix variant); every completed API history of the model replayed on the real Provider with generated factories; simulated deep behaviours over 3 names',
     text='Exhaustive for 2 names: 100 factory-behaviour configurations x all definition/Get sequences in the bound (303 000 states, 286 000 histories, each executed on the real code comparing every result, instance origin, identity and factory invocation counts). Beyond the bound, random behaviours of the same specification over 3 names (incl. 3-cycles) are replayed the same way.',
-    note='Factories are harness closures; InjectTo is exercised through one-field structs (required and optional tag). Extra injectors (map/multi/datascope) are not driven.')
+    note='Factories are harness closures. InjectTo is exercised through one-field structs (required and optional tag) and, in a smaller bound and in the simulated behaviours, through structs of 2-3 tagged fields followed by extra injectors (a multi-injector holding a map injector); the datascope injector is not driven.')
 
 
 def run(ctx):
@@ -39,6 +44,14 @@ def run(ctx):
     m = vlib.run_sharded(ctx, lambda p: ['dicases', '--in', p], shards)
     ctx.cov['replay'].append(dict(what='API histories of the exhaustive model', model_histories=total, executed=m['executed'], failures=m['failures_by_key']))
     vlib.report_case_failures(ctx, m, 'API histories')
+    # struct injection (several tagged fields + extra injectors): every history of the smaller bound that contains an InjectTo
+    ri = ctx.tlc_must_pass('di', 'DI', 'MC_DI_inj.cfg', workers=8, timeout=1800, name='DI with struct injection (2 names, <=2 definitions, <=2 requests of which any may be an InjectTo with 2 fields)')
+    shards_i, total_i, taken_i = vlib.shard_lines(ctx, ri['out'], NPROC, marker='\\"call\\":\\"inject\\"', every=5 if q else 1, offset=ctx.seed)
+    mi = vlib.run_sharded(ctx, lambda p: ['dicases', '--in', p], shards_i)
+    ctx.cov['replay'].append(dict(what='API histories with struct injection (each run with and without the extra injector\'s key)', model_histories=total_i, executed=mi['executed'], failures=mi['failures_by_key']))
+    vlib.report_case_failures(ctx, mi, 'struct injection histories')
+    ctx.cov['evaluations'] += mi['executed']
+    ctx.cov['distinct_nontrivial'] += mi['executed']
     rs = ctx.tlc('di', 'DI', 'MC_DI_sim.cfg', workers=1, timeout=900, simulate='num=%d' % (300 if q else 6000),
                  extra=['-depth', '60', '-seed', str(ctx.seed)], name='DI simulated behaviours, 3 names')
     if rs['error'] and 'timeout' not in str(rs['error']):
